@@ -304,6 +304,10 @@ def encoding(
             logger.debug("gamma %s", gamma)
             logger.debug("vSums %s", vSums[index])
             logger.debug("fSums %s", fSums[index])
+        if vSums[index] and not fSums[index]:
+            # no world falsifies this conditional: it is accepted whatever the parameters
+            # (an empty minimum would be encoded as False and make the problem infeasible)
+            continue
         mv, mf = freshVars(index)
         vMin = minima_encoding(mv, vSums[index])
         fMin = minima_encoding(mf, fSums[index])
